@@ -7,6 +7,7 @@
 
 #![allow(clippy::too_many_arguments)]
 
+pub mod children;
 pub mod gen_tx;
 pub mod gen_valid;
 pub mod mon;
